@@ -4,7 +4,10 @@ VARIABLE x
 Init == x \in Cases
 Next == UNCHANGED x
 \* the program text (Unparse), the input records as texts, and the AST itself (it comes back with the observation)
-Emit == PrintT(ToJson([src |-> Unparse(x.p), q |-> x.p.q, n |-> (x.p.main = <<>>),
-                       recs |-> [i \in 1..Len(x.recs) |-> [j \in 1..Len(x.recs[i]) |-> <<x.recs[i][j][1], Str(x.recs[i][j][2])>>]],
+RecTexts(recs) == [i \in 1..Len(recs) |-> [j \in 1..Len(recs[i]) |-> <<recs[i][j][1], Str(recs[i][j][2])>>]]
+IsLaw(c) == "law" \in DOMAIN c
+\* (a law case carries a second, cut-down program and record list: see MiniMillerCases, family emitsnap)
+Emit == PrintT(ToJson([src |-> Unparse(x.p), q |-> x.p.q, n |-> (x.p.main = <<>>), recs |-> RecTexts(x.recs),
+                       src0 |-> IF IsLaw(x) THEN Unparse(x.p0) ELSE "", recs0 |-> IF IsLaw(x) THEN RecTexts(x.recs0) ELSE <<>>,
                        c |-> x]))
 =============================================================================
